@@ -900,6 +900,91 @@ func ruleC03R6(r *Run) {
 					r.Check("newMakeKindGen#case."+kind, cc.Pos(), good, "reflect."+kind+" is generated by a generator of "+got, "Make maps reflect."+kind+" to a generator of "+got+": the value does not have the requested dynamic type")
 				}
 			}
+			// scalar kinds kept in a package-level table map[reflect.Kind]func() *Generator[any] instead of switch cases:
+			// the same agreement per entry; the lookup site returns (table[kind](), true)
+			for _, f := range p.Files {
+				for _, d := range f.Decls {
+					gd, ok := d.(*ast.GenDecl)
+					if !ok || gd.Tok != token.VAR {
+						continue
+					}
+					for _, sp := range gd.Specs {
+						vs, ok := sp.(*ast.ValueSpec)
+						if !ok || len(vs.Values) != 1 {
+							continue
+						}
+						cl, ok := vs.Values[0].(*ast.CompositeLit)
+						if !ok {
+							continue
+						}
+						mt, ok := p.Info.Types[cl].Type.Underlying().(*types.Map)
+						if !ok || mt.Key().String() != "reflect.Kind" {
+							continue
+						}
+						// the table is consulted by newMakeKindGen, whose hit returns mayNeedCast = true
+						castTrue := false
+						ast.Inspect(fd.Body, func(n ast.Node) bool {
+							rs, ok := n.(*ast.ReturnStmt)
+							if !ok || len(rs.Results) != 2 {
+								return true
+							}
+							ce, isCall := rs.Results[0].(*ast.CallExpr)
+							tv, hasTV := p.Info.Types[rs.Results[1]]
+							if isCall && hasTV && tv.Value != nil && tv.Value.Kind() == constant.Bool && constant.BoolVal(tv.Value) {
+								if _, isIdent := ce.Fun.(*ast.Ident); isIdent {
+									castTrue = true
+								}
+								if ix, isIx := ce.Fun.(*ast.IndexExpr); isIx {
+									if id, ok := ix.X.(*ast.Ident); ok && len(vs.Names) == 1 && id.Name == vs.Names[0].Name {
+										castTrue = true
+									}
+								}
+							}
+							return true
+						})
+						for _, el := range cl.Elts {
+							kv, ok := el.(*ast.KeyValueExpr)
+							if !ok {
+								continue
+							}
+							sel, ok := kv.Key.(*ast.SelectorExpr)
+							if !ok {
+								continue
+							}
+							kind := sel.Sel.Name
+							nCases++
+							// the value: func() *Generator[any] { return X().AsAny() }
+							var asAny *ast.SelectorExpr
+							if fl, ok := kv.Value.(*ast.FuncLit); ok && len(fl.Body.List) == 1 {
+								if rs, ok := fl.Body.List[0].(*ast.ReturnStmt); ok && len(rs.Results) == 1 {
+									if ce, ok := rs.Results[0].(*ast.CallExpr); ok {
+										asAny, _ = ce.Fun.(*ast.SelectorExpr)
+									}
+								}
+							}
+							if asAny == nil || asAny.Sel.Name != "AsAny" {
+								r.Fail("newMakeKindGen#case."+kind, kv.Pos(), "the table entry for reflect."+kind+" is not a function returning <generator>.AsAny()")
+								continue
+							}
+							r.Check("newMakeKindGen#cast."+kind, kv.Pos(), castTrue, "values of reflect."+kind+" generators are converted to named types of that kind", "Make does not request a conversion for reflect."+kind+" (the table hit does not return mayNeedCast = true)")
+							nScalar++
+							tv, ok := p.Info.Types[asAny.X]
+							good, got := false, "?"
+							if ok {
+								if pt, ok := tv.Type.(*types.Pointer); ok {
+									if nt, ok := pt.Elem().(*types.Named); ok && nt.TypeArgs() != nil && nt.TypeArgs().Len() == 1 {
+										got = nt.TypeArgs().At(0).String()
+										if bt, ok := nt.TypeArgs().At(0).Underlying().(*types.Basic); ok {
+											good = bt.Kind() == kindToBasic[kind]
+										}
+									}
+								}
+							}
+							r.Check("newMakeKindGen#case."+kind, kv.Pos(), good, "reflect."+kind+" is generated by a generator of "+got, "Make maps reflect."+kind+" to a generator of "+got+": the value does not have the requested dynamic type")
+						}
+					}
+				}
+			}
 			// the consumer of the flag: the kind generator is returned as it is only where no conversion was requested or
 			// the type is the predeclared type of its kind (its name is the kind's name)
 			if mg := r.MustFn("newMakeGen"); mg != nil {
